@@ -29,10 +29,18 @@ Ltac step :=
   lazymatch goal with
   | |- ?lhs = ?rhs =>
       let s := head_scrut lhs in
+      let split t :=
+        lazymatch t with
+        | true => fail "no scrutinee left"
+        | false => fail "no scrutinee left"
+        | Some _ => fail "no scrutinee left"
+        | None => fail "no scrutinee left"
+        | _ => destruct t eqn:?
+        end in
       lazymatch s with
-      | true => let s' := head_scrut rhs in destruct s' eqn:?
-      | false => let s' := head_scrut rhs in destruct s' eqn:?
-      | _ => destruct s eqn:?
+      | true => let s' := head_scrut rhs in split s'
+      | false => let s' := head_scrut rhs in split s'
+      | _ => split s
       end; lazy beta iota; cbn [negb andb orb]
   end.
 Ltac go := first [ reflexivity | solve [bool_close] | step; go ].
